@@ -1692,7 +1692,7 @@ func c18r9(c *Ctx, r *Report) {
 func c14r11(c *Ctx, r *Report) {
 	l := c.L
 	r.rule("C14-R11", "B (ownership hand-off: whoever drops a spec releases it)", "P1",
-		"(a) every store of a non-nil value into a captured *commandSpec variable is reachable from a removeFiles call on that variable's old tempFiles in the same function; (b) the coordinator's EvtQuit case removes the files of a pending nextCommand; (c) Reader.restart records the running command's files in the Reader and Reader.terminate removes them",
+		"(a) every store of a non-nil value into a captured *commandSpec variable is reachable from a removeFiles call on that variable's old tempFiles in the same function; (b) the coordinator's EvtQuit case removes the files of a pending nextCommand and of the command of a search request still in the event box; (c) Reader.restart records the running command's files in the Reader and Reader.terminate removes them",
 		"files created for {f}/{+f} of a reload command stay in $TMPDIR when the reload is superseded or fzf exits during it")
 	remove := l.Fn("fzf", "removeFiles")
 	if remove == nil {
@@ -1739,6 +1739,7 @@ func c14r11(c *Ctx, r *Report) {
 	}
 	nStore := 0
 	quitReleased := false
+	quitReleasedPending := false
 	evtQuit := l.Const("fzf", "EvtQuit")
 	for _, fn := range l.AllFuncs() {
 		if fn.Blocks == nil || fn.Pkg != l.pkg("fzf") {
@@ -1787,14 +1788,52 @@ func c14r11(c *Ctx, r *Report) {
 						onSpec = true
 					}
 				}
-				if !onSpec {
+				// ... or the command of a search request that is still in the event box
+				// (followed through field selections only, not through the captured variables: nextCommand itself
+				// was once taken out of a request)
+				pendingReq := false
+				var sel func(v ssa.Value, d int)
+				sel = func(v ssa.Value, d int) {
+					if d > 8 {
+						return
+					}
+					switch x := v.(type) {
+					case *ssa.UnOp:
+						sel(x.X, d+1)
+					case *ssa.FieldAddr:
+						sel(x.X, d+1)
+					case *ssa.Field:
+						sel(x.X, d+1)
+					case *ssa.Extract:
+						sel(x.Tuple, d+1)
+					case *ssa.TypeAssert:
+						if nn, ok := x.AssertedType.(*types.Named); ok && nn.Obj().Name() == "searchRequest" {
+							pendingReq = true
+						}
+					case *ssa.Alloc:
+						if x.Parent() == fn && x.Referrers() != nil {
+							for _, ref := range *x.Referrers() {
+								if st, ok := ref.(*ssa.Store); ok && st.Addr == ssa.Value(x) {
+									sel(st.Val, d+1)
+								}
+							}
+						}
+					}
+				}
+				sel(call.Call.Args[0], 0)
+				if !onSpec && !pendingReq {
 					return
 				}
 				if pc == nil {
 					pc = pathConds(fn)
 				}
 				if ks, ok := eqConstLits(pc, call.Block()); ok && ks[qv] {
-					quitReleased = true
+					if onSpec {
+						quitReleased = true
+					}
+					if pendingReq {
+						quitReleasedPending = true
+					}
 				}
 			})
 		}
@@ -1802,6 +1841,7 @@ func c14r11(c *Ctx, r *Report) {
 	r.floor("overwrites of a captured *commandSpec variable", nStore, 2)
 	if run := l.Fn("fzf", "Run"); run != nil {
 		r.check(quitReleased, relName(run)+":EvtQuit releases a pending reload command", run.Pos(), run, "the quit case removes the files of nextCommand", "on quit a reload command that was waiting for the old reader to end is dropped together with its temporary files")
+		r.check(quitReleasedPending, relName(run)+":EvtQuit releases the command of a search request still in the box", run.Pos(), run, "the quit case removes the files of a pending request's command", "when the quit event is handled before a reload request posted in the same round (reload(..{f}..)+abort), the request's temporary files are never removed")
 	}
 	// (c) the reader
 	fRT := l.Field("fzf", "Reader", "tempFiles")
